@@ -47,9 +47,13 @@ MANIFEST = {
             "findings): an untagged enum alternative shadowed by an earlier one (F51), a custom field named like a schema key (F53). "
             "Model and crate are run on the same values/JSON trees every check (builders -> to_value -> from_value, and "
             "from_value -> to_value -> from_value), plus a direct oracle on the implementation.",
-    "note": "Not claimed: 'logging never panics for lack of context' (call-site property of the thread-local span) and 'same application-visible "
-            "behaviour with logging enabled/disabled/filtered' (non-interference of the whole stack) — no model short of the whole connection "
-            "expresses them. Trusted: Coq kernel, schema translator, extraction, harness, Python reference serialiser. serde-derive semantics are "
+    "note": "The no-panic and purely-observational clauses are proved and checked at the telemetry layer (stream `qlog`, theorems c20_log_*): for every "
+            "payload, exporter state (no span, no-op, channel with the receiver alive or dropped, filtering, the stock LegacySeqLogger with a failing sink) "
+            "and history, the frame-to-qlog conversion and emission never panic on anything the frame reader delivers, the dispatcher's record of a packet is "
+            "the frame reader's output and identical under any two exporter states, a live receiver gets exactly the events passing the filter and nothing "
+            "is delivered otherwise. Still not claimed: a call site asking the thread-local span for a field that was never set (Span::load, whole-program "
+            "property) and non-interference of the complete connection (the send path through PacketWriter needs real packet keys). "
+            "Trusted: Coq kernel, schema translator, extraction, harness, Python reference serialiser. serde-derive semantics are "
             "modelled, tied to the real derive output only by correspondence. Floats are opaque tokens.",
     "technique": "Coq proof (mutual induction over the schema datatype; vm_compute over the regenerated schema table) + differential correspondence",
 }
